@@ -557,7 +557,14 @@ def status_class(st):
 class Spec:
     props_module = "Mhd.Props.C19"
     lean_targets = ["Mhd.Props.C19", "drv_ws"]
-    required_theorems = []
+    required_theorems = ["Mhd.C19.split_independent", "Mhd.C19.split_independent_init", "Mhd.C19.roundtrip_data_partial",
+                         "Mhd.C19.roundtrip_pingpong_partial", "Mhd.C19.roundtrip_close_partial",
+                         "Mhd.C19.decode_no_fault",
+                         "Mhd.C19.feed_no_fault", "Mhd.C19.init_ready", "Mhd.C19.reserved_bits", "Mhd.C19.unknown_opcode",
+                         "Mhd.C19.fragmented_control", "Mhd.C19.bad_frame_sequence", "Mhd.C19.wrong_mask_or_control_length",
+                         "Mhd.C19.over_max_7bit", "Mhd.C19.length16", "Mhd.C19.length64", "Mhd.C19.over_max_continuation",
+                         "Mhd.C19.invalid_utf8_text", "Mhd.C19.invalid_utf8_close", "Mhd.C19.truncated_utf8_text",
+                         "Mhd.C19.truncated_utf8_close", "Mhd.C19.F7_witness", "Mhd.C19.F7c_witness"]
     trusted_base = ["Lean 4 kernel", "axioms: propext, Classical.choice, Quot.sound at most (audited per theorem)",
                     "hand-written model lean/Mhd/Model/WS.lean + WSDecode.lean, tied to mhd_websocket.c by this run's correspondence",
                     "tools/props/C19.py gen_ws (enum values regenerated), reference framer RefDecoder/ref_frame in the same file",
@@ -857,6 +864,19 @@ class Spec:
                         code = int.from_bytes(p[:2], "big") if len(p) >= 2 else 0
                         e.append(("s", "s 0 %d %s" % (code, ("2:" + p[2:].hex()) if len(p) > 2 else "null")))
             scripts.append(s); expect.append(e)
+        # every length-encoding boundary, both roles, text and binary, whole and as first fragment
+        for size in [0, 1, 125, 126, 127, 128, 65535, 65536, 65537]:
+            for client in (False, True):
+                key = bytes([0x11, 0x22, 0x33, 0x44])
+                s = ["init %d 0 %d 4" % (CLIENT if client else 0, 1 << 40), "rng " + hx(key * 4)]
+                e = [None, None]
+                pb = bytes((j * 5 + 1) & 0xFF for j in range(size)); pt = rand_text(rng, size)
+                k = key if client else None
+                s.append("enc_bin %s 0" % hx(pb)); e.append(("e", 0, ref_frame(2, True, pb, k)))
+                s.append("enc_text %s 0 -" % hx(pt)); e.append(("e", 0, ref_frame(1, True, pt, k)))
+                s.append("enc_bin %s 1" % hx(pb)); e.append(("e", 0, ref_frame(2, False, pb, k)))
+                s.append("enc_bin %s 3" % hx(pb)); e.append(("e", 0, ref_frame(0, True, pb, k)))
+                scripts.append(s); expect.append(e)
         self.run_direct(scripts, expect, failures, stats, "encoders")
 
     def run_direct(self, scripts, expect, failures, stats, what):
@@ -1058,7 +1078,7 @@ class Spec:
                                        [[]] + d.get("cuts", []) + ([list(range(1, len(d["stream"]) // 2))] if len(d["stream"]) > 2 else [])))
         self.run_cases(corpus, failures, stats)
         self.run_cases(self.size_class_cases(ctx), failures, stats)
-        nstream = (12000 if thorough else 1600) * (2 if boost else 1)
+        nstream = (60000 if thorough else 4000) * (2 if boost else 1)
         cases = self.stream_cases(ctx, nstream, ctx.tier)
         self.run_cases(cases, failures, stats)
         ctx.note("streams done: %d cases, %d scripts, %d failures" % (stats["cases"], stats["scripts"], len(failures)))
@@ -1066,10 +1086,10 @@ class Spec:
         before = stats["scripts"]
         self.run_cases(hp, failures, stats)
         ctx.note("header pairs done: %d scripts" % (stats["scripts"] - before))
-        self.direct_ops(ctx, 6000 if thorough else 1200, failures, stats)
+        self.direct_ops(ctx, 30000 if thorough else 2000, failures, stats)
         self.utf8_cases(ctx, ctx.tier, failures, stats)
         self.accept_cases(ctx, failures, stats)
-        self.roundtrip_cases(ctx, 3000 if thorough else 500, failures, stats)
+        self.roundtrip_cases(ctx, 20000 if thorough else 1500, failures, stats)
         self.alignment_run(ctx, stats)
         labels = {}
         for c in cases:
